@@ -45,6 +45,9 @@ PROPS = {
     "C14": {"count": {"quick": 3500, "thorough": 40000},
             "trusted": ["modelled, not verified: QBuffer/QFile read/seek/pos/atEnd, QIODevice::write refusing a negative length, QTimer::singleShot(0) = one pending call per event-loop turn; the harness devices (MemSrc, SeqSrc, LogDest) stand for QFile / sockets"],
             "rule": "exhaustive: sources of length <= L, every block size 1..len+1, no range and every (from,to) in [0,len+1] x [-1,len+1], left to run; stop() at every turn; then random contents (to 200 000 bytes), ranges, injected open/seek/read/write failures, sequential sources delivered in arbitrary pieces"},
+    "C15": {"count": {"quick": 2000, "thorough": 30000},
+            "trusted": SOCK_TRUSTED + ["modelled, not verified: QMap<QString,Method> insert/contains/value, QMetaObject slot lookup and signature check (a registration is `good` or not)"],
+            "rule": "registries of <= 5 names (prefixes of each other, empty name, case variants, non-ASCII) through the old-style, pointer-to-member, functor, missing-slot and wrong-signature forms, with/without readAll; bodies of 0..16390 bytes, complete or truncated, in every kind of segmentation; harness slots record bytesAvailable()"},
     "C16": {"count": {"quick": 400, "thorough": 6000},
             "trusted": ["translated from the C++ on every run (tools/cxx2lean.py, clang-14 AST): Range::from/to/length/isValid/dataSize and the numeric constructor; bridge theorems QhttpBridge.Range prove them equal to the hand model",
                         "modelled, not verified: the string constructor (QRegExp ^(\\d*)-(\\d*)$, QString::trimmed, QString::toInt) for ASCII text, QString::number; validated by the exhaustive/boundary correspondence runs",
@@ -77,6 +80,8 @@ LEVEL = {
          "fromBase64 modelled (lenient decoder); QString conversion of credentials is covered by the round-trip guard in the repaired code."),
  "C14": ("Theorems over the copier state machine for every source, block size >= 1 and range: left to run it writes exactly src[from..min to (len-1)] (termination of the block loop included), one completion after the last write; failures give error then one completion; after stop() nothing more is written or signalled; sequential sources in arbitrary pieces; tie: exhaustive small sources x blocks x ranges x stop points on the real QIODeviceCopier with instrumented devices.",
          "devices are abstracted as byte strings with failure parameters; ranges on sequential sources are outside setRange()'s documented domain."),
+ "C15": ("Theorems: exactly the registration stored under the equal path is used (last registration wins), unknown => 404, unusable => 500, and with readAll the slot observation occurs exactly once and only at a point where bytesAvailable >= contentLength, for every segmentation; tie: registries x bodies x segmentations through the real QObjectHandler.",
+         "Qt's meta-object lookup is abstracted to good / not good."),
  "C16": ("Theorems over Int (every offset and size): valid => 0<=from<=to<size, length, text; invalid => -1 and */size; valid iff one of the three shapes; string forms; copy/resize preserve bounds; the accessor code is regenerated from range.cpp on every run and bridge-proved equal to the model, and the compiled class is compared with the model on an exhaustive cube and on all short strings.",
          "string constructor modelled for ASCII text only; QRegExp/QString are Qt."),
 }
